@@ -74,7 +74,8 @@ type c16Case struct {
 	Seq     []int  `json:"seq"`
 	Variant string `json:"variant"`
 	// Layout of the offer: "" = one audio and one video section; "v+vp" / "vp+v" = a second video section that
-	// lists only the primary codecs of the video list (no RTX / FlexFEC / RED) after / before the full one
+	// lists only the primary codecs of the video list (no RTX / FlexFEC / RED) after / before the full one;
+	// "v+vr" / "vr+v" = a second video section that lists the primaries under other payload type numbers
 	Layout string `json:"layout,omitempty"`
 }
 
@@ -163,8 +164,29 @@ func c16OfferLayout(remote []c16Codec, layout string) string {
 			secs = append(secs, s)
 		}
 	}
+	renumbered := func() {
+		// the primaries of the video list again, under other payload type numbers (70, 71, ...)
+		s := vScanOfferSection{Media: "video", Dir: "sendrecv"}
+		next := 70
+		for _, r := range remote {
+			if r.Kind == "video" && !c16IsRepair(r.Name) {
+				s.Codecs = append(s.Codecs, vScanOfferCodec{PT: next, Name: r.Name, Clock: r.Clock, Ch: r.Ch, Fmtp: r.Fmtp, FB: r.FB})
+				next++
+			}
+		}
+		if len(s.Codecs) > 0 {
+			s.Mid = fmt.Sprintf("%d", len(secs))
+			secs = append(secs, s)
+		}
+	}
 	section("audio", false)
 	switch layout {
+	case "v+vr":
+		section("video", false)
+		renumbered()
+	case "vr+v":
+		renumbered()
+		section("video", false)
 	case "v+vp":
 		section("video", false)
 		section("video", true)
@@ -532,6 +554,20 @@ func TestVerifC16(t *testing.T) {
 			}
 			// a second video section without the repair codecs: what is negotiated for one section of a kind
 			// must not leak into the answer of another section of that kind
+			// a second video section that numbers the same primaries differently (legal: numbers are per section)
+			for _, lay := range []string{"v+vr", "vr+v"} {
+				hasVideo := false
+				for _, r := range remote {
+					hasVideo = hasVideo || (r.Kind == "video" && !c16IsRepair(r.Name))
+				}
+				if !hasVideo {
+					break
+				}
+				for _, v := range []string{"remote-first", "transceiver"} {
+					c16Run(t, c, memo, c16Case{Local: e.local, RTX: e.rtx, Seq: seq, Variant: v, Layout: lay}, c16OfferLayout(remote, lay))
+					n++
+				}
+			}
 			if c16HasLayouts(remote) {
 				for _, lay := range []string{"v+vp", "vp+v"} {
 					for _, v := range []string{"remote-first", "transceiver"} {
